@@ -275,7 +275,7 @@ func useTree(t fataler, src []byte, o js.Options, ast *js.AST) {
 }
 
 func TestProp_JSParse(t *testing.T) {
-	ev.Describe("js.Parse", "hostile JS fragment strings, mutated literals of the repository's js tests and truncations, (one third) programs of the ECMAScript grammar generator with 1-3 token-level slips (delete, duplicate, swap, replace, insert, splice) and (one sixth) cover-grammar sources (literal-like expressions with spreads, initialisers, methods and nested literals as arrow heads, assignment targets and for-in/of heads), x Options{WhileToFor,Inline} in {0,1}^2; oracle: Parse returns normally, exactly one of (tree, error) is nil, a returned tree survives String(), JS(), JSString(), Walk (balanced Enter/Exit) and JSON()/JSONString() without panic; non-trivial = input of >= 8 bytes; classes accepted/rejected")
+	ev.Describe("js.Parse", "hostile JS fragment strings, mutated literals of the repository's js tests and truncations, (one third) programs of the ECMAScript grammar generator with 1-3 token-level slips (delete, duplicate, swap, replace, insert, splice) and (one sixth) cover-grammar sources (literal-like expressions with spreads, initialisers, methods and nested literals as arrow heads, assignment targets and for-in/of heads), x Options{WhileToFor,Inline} in {0,1}^2; oracle: Parse returns normally, exactly one of (tree, error) is nil, a returned tree survives String(), JS(), JSString(), Walk (balanced Enter/Exit) and JSON()/JSONString() without panic, and prints the same text after a later Parse of another program (1-5 kept comments stand in front of 5 inputs in 12); non-trivial = input of >= 8 bytes; classes accepted/rejected")
 	ev.Check(t, 20000, func(t *rapid.T) {
 		var src []byte
 		source := "fragments/literals"
@@ -291,6 +291,10 @@ func TestProp_JSParse(t *testing.T) {
 			source = "near-valid"
 		} else {
 			src = genInput(t, "js")
+		}
+		if k := rapid.IntRange(0, 11).Draw(t, "keptcomments"); k >= 1 && k <= 5 {
+			// kept comments in front (the parser collects them next to the statement list)
+			src = append([]byte(strings.Repeat("/*! c */", k)), src...)
 		}
 		o := js.Options{WhileToFor: rapid.Bool().Draw(t, "w2f"), Inline: rapid.Bool().Draw(t, "inline")}
 		var ast *js.AST
@@ -310,6 +314,12 @@ func TestProp_JSParse(t *testing.T) {
 		if ast != nil {
 			cls = "accepted"
 			useTree(t, src, o, ast)
+			// the tree holds bytes of its own input only, also after the library has parsed something else
+			before := ast.JSString()
+			js.Parse(parse.NewInputString("/*! x */ /*! y */ delta(); /*! z */ epsilon();"), o)
+			if after := ast.JSString(); after != before {
+				t.Fatalf("the tree returned by js.Parse(%q, %+v) printed\n%s\nand prints, after a later Parse of another text,\n%s", src, o, before, after)
+			}
 		}
 		ev.Case("js.Parse", fmt.Sprintf("%+v|%s", o, src), len(src) >= 8, cls, source)
 	})
@@ -494,7 +504,11 @@ func (c deepCase) spec() []byte {
 }
 
 func (c deepCase) String() string {
-	s := fmt.Sprintf("%s %q + %q*%d + %q + %q*%d + %q closed=%v opts=%q", c.row.entry, c.row.head, c.row.prefix, c.depth, c.row.mid, c.row.suffix, c.depth, c.row.tail, c.closed, c.row.opts)
+	suffix := c.row.suffix
+	if len(suffix) > 40 {
+		suffix = fmt.Sprintf("%s...(%d bytes)", suffix[:24], len(suffix))
+	}
+	s := fmt.Sprintf("%s %q + %q*%d + %q + %q*%d + %q closed=%v opts=%q", c.row.entry, c.row.head, c.row.prefix, c.depth, c.row.mid, suffix, c.depth, c.row.tail, c.closed, c.row.opts)
 	if c.flatN > 0 {
 		s += fmt.Sprintf(" behind %q*%d", c.flat, c.flatN)
 	}
@@ -508,7 +522,7 @@ func (c deepCase) String() string {
 var flatStatements = []string{"0;", "a;", "(a);", "x=>x;", "(a,b)=>a;", "[a];", "({});", "!a;", "`t`;", "a?b:c;", "{}", "if(a);", "f(a);", "a=1;", "x=(a);", "var[b]=c;", "(class{});", "(function(){})();", "a.b;", "new a;", "l:b;", "for(;;)break;", "a`t`;", "a?.b;", "async()=>{};", "try{}catch{};", "switch(a){};", "1+2;", "a=[1,{b:2}];", "function f(){};"}
 
 func TestProp_Deep(t *testing.T) {
-	ev.Describe("deep", "every recursive construct of a table (54 JS rows: parentheses, array/object literals, blocks, unary/await/typeof chains, arrows, conditionals, calls, new, if/else, labels, functions, IIFEs, template substitutions, class heritage and bodies, binding patterns in let/parameters/catch/arrow heads/for-of, assignment, **, optional chains, left-deep binary chains, member/call/template suffix chains, spread, loops, with, switch, try, yield, return; 2 js lexer, 11 css, 3 json, 4 html, 3 xml rows) at depths {1,10,999,1000,1001,10^4,10^5} (10^6 in the thorough tier), closed or truncated, plus drawn pairs (one row nested in another), plus 30 statement shapes repeated 10^5 times as a flat prefix in front of a construct nested 10^5 deep (a nesting counter that drifts per statement); each case runs in a child process with a 16 MiB maximum stack; oracle: exit status 0 and a RESULT line (parse error or success incl. String/JS/Walk/JSON on the tree), never 'goroutine stack exceeds', 'fatal error', a panic or non-termination; non-trivial = depth >= 3")
+	ev.Describe("deep", "every recursive construct of a table (54 JS rows: parentheses, array/object literals, blocks, unary/await/typeof chains, arrows, conditionals, calls, new, if/else, labels, functions, IIFEs, template substitutions, class heritage and bodies, binding patterns in let/parameters/catch/arrow heads/for-of, assignment, **, optional chains, left-deep binary chains, member/call/template suffix chains, spread, loops, with, switch, try, yield, return; 2 js lexer, 11 css, 3 json, 4 html, 3 xml rows) at depths {1,10,999,1000,1001,10^4,10^5} (10^6 in the thorough tier), closed or truncated, plus drawn pairs (one row nested in another), plus 30 statement shapes repeated 10^5 times as a flat prefix in front of a construct nested 10^5 deep (a nesting counter that drifts per statement), plus 12 spines (a chain of 1100-99000 operators behind every closing bracket of a nest of 12-900 levels: nesting and chain length beyond the limits in sum); each case runs in a child process with a 16 MiB maximum stack; oracle: exit status 0 and a RESULT line (parse error or success incl. String/JS/Walk/JSON on the tree), never 'goroutine stack exceeds', 'fatal error', a panic or non-termination; non-trivial = depth >= 3")
 	bin, err := child()
 	if err != nil {
 		t.Fatalf("VERIF-INFRA cannot build the child: %v", err)
@@ -550,6 +564,18 @@ func TestProp_Deep(t *testing.T) {
 			}
 			i++
 		}
+	}
+	// spines: a chain of operators behind every closing bracket of a nest. The depth of the tree is the product of the two,
+	// so the limits have to bound their sum (each of these is beyond the limits: a parse error is the expected answer)
+	for _, sp := range []struct {
+		open, close, link string
+		levels, chain     int
+	}{{"(", ")", "+a", 130, 9990}, {"(", ")", "+a", 60, 5000}, {"(", ")", "+a", 300, 1500}, {"(", ")", ".b", 130, 9990}, {"(", ")", "(b)", 100, 6000}, {"(", ")", "?.b", 200, 2000},
+		{"(", ")", "[0]", 90, 9000}, {"[", "]", "+a", 130, 9990}, {"f(", ")", "*a", 130, 9990}, {"(", ")", "`t`", 120, 8000}, {"(", ")", "&&a", 12, 99000}, {"(", ")", "||a", 900, 1100}} {
+		if i%nshards == shard {
+			cases = append(cases, deepCase{row: deepRow{"jsparse", "", sp.open, "a", sp.close + strings.Repeat(sp.link, sp.chain), "", ""}, depth: sp.levels, closed: true})
+		}
+		i++
 	}
 	// pairs: drawn with rapid so that they follow the seed
 	ev.Check(t, 1, func(rt *rapid.T) {
